@@ -54,8 +54,23 @@ def _run_guarded(mod, ctx, case):
                           "(exception escaped through the harness)", case, kind="R",
                           detail={"traceback": traceback.format_exc()[-3000:]})
             ctx.case_done(case, True)
+        elif isinstance(e, (RuntimeError,)) and "Lean driver" in str(e):
+            raise  # the model side is gone: infrastructure
         else:
-            raise
+            # The harness itself could not digest what the implementation produced for this case (typically a
+            # state its bookkeeping assumes impossible: arrays out of step, a missing attribute, a shape it never
+            # sees on the unchanged tree).  On the unchanged tree this never happens (it would be a harness bug and
+            # is fixed as such); after a code change it means the correspondence can no longer be established on
+            # this input: reported as a broken correspondence (F) with the case as replay, not as exit 2.
+            fr = tb[-1] if tb else None
+            where = f"{Path(fr.filename).name}:{fr.name}" if fr else "?"
+            ctx.violation(f"harness-exception:{type(e).__name__}@{where}",
+                          f"the harness could not process the implementation's behaviour on this case "
+                          f"({type(e).__name__}: {str(e)[:160]})", case, kind="F",
+                          detail={"traceback": traceback.format_exc()[-3000:]})
+            ctx.count("harness_exceptions")
+            if ctx.counters.get("harness_exceptions", 0) > 50:
+                raise
 
 
 def worker(args) -> dict:
